@@ -6,15 +6,15 @@ VERIF = os.path.dirname(os.path.dirname(os.path.abspath(__file__)))
 
 # property -> (level, engine, technique, level text, level note, design ref)
 P = {
- "C01": ("model_checking", "E1-bfs", "explicit-state BFS to a fixpoint over the accessor-derivation graph of the real API, interval reference model, guard pages and canaries",
+ "C01": ("model_checking", "E1-bfs", "explicit-state BFS to a fixpoint over the accessor-derivation graph of the real API, interval reference model, guard pages, canaries and the recorded load/store traffic (hook H1) of every new accessor",
          "Closure (empty frontier) of every derivation the API offers from roots of every small size and base alignment, all arguments 0..=L+1 plus extreme and pointer-overflowing values; each transition is executed on the real crate and compared with an interval model; each new accessor is exercised (fill/read-back) inside an arena with canaries and PROT_NONE guard pages; element accessors of arrays (ref_at, load, store) are probed with every index incl. out of range; the provided trait methods over a parent outside the crate whose get_slice clips.",
          "Container sizes <= 33 bytes (mmap regions: 1, 5, 4096, 4097); state canonicalisation = (kind, type, offset, length, bitmap offset), sound because the accessor structs are Copy records of exactly these fields.", "2/C01"),
  "C02": ("exploration", "exhaustive-inputs", "exhaustive enumeration of all region layouts over a small cell universe x all queries, against an interval-set model; mmap collection and a trait-default mock implementation",
          "Every set of disjoint regions over U cells (adjacent vs merged distinguished) at several bases including the top of the address space, every query method at every address/length of the universe plus extremes; huge layouts probed at boundaries through raw regions; the trait-default mock keeps its regions in an order of its own (as given, reversed, rotated); regions carved out of one host mapping (adjacent in the host too); layouts ending at 2^64 offered to the mmap collection as well.",
-         "Small universe (6..8 cells) for exhaustive part; large layouts only at boundary addresses. len=0 ranges recorded, not judged.", "2/C02"),
+         "Small universe (6..8 cells) for exhaustive part (maps built by one call, by insertions, with outside regions removed again, or from a gap-free map whose hole-filling regions are removed); large layouts only at boundary addresses. len=0 ranges recorded, not judged.", "2/C02"),
  "C03": ("model_checking", "E1-bfs", "explicit-state BFS over operation histories on real guest memory with a sparse byte-map reference model; full-memory diff after every transition",
          "All layouts over a small universe x all (op, address, length) at depth 1 and all depth-2/3 histories over a reduced alphabet, on anonymous, file-backed and Xen-UNIX regions and a trait-default mock (unordered storage), short streams that also report Interrupted, regions beyond a MiB with single transfers up to 3 MiB, one region of 64 MiB with transfers beyond 2^26 bytes; after each step every byte of every region is compared with the model.",
-         "Universe of 6..7 one-byte cells; object types up to 16 bytes; ample in-memory streams (short streams belong to C14).", "2/C03"),
+         "Universe of 6..7 one-byte cells; object types up to 16 bytes; ample in-memory streams (short streams belong to C14); payloads are label patterns, on the large layout also all-zero, almost-zero and all-one buffers.", "2/C03"),
  "C04": ("model_checking", "E1-bfs", "explicit-state exploration of operation histories on one container against a Vec<u8> model, depth-1 full alphabet and depth-2 route pairs",
          "All accessors x all (offset, length, type) on containers of 0..24 bytes at every misalignment, every (src mod 8, dst mod 8, len<=9) class of the small-copy routine, depth-2 product of write route x read route, depth-3 on a reduced alphabet and write / nearly identical rewrite / read histories; single transfers of 2^24+1 bytes on a 16 MiB region; container (frame included) compared byte for byte after every operation.",
          "Containers <= 24 bytes plus MmapRegion of 24/4099 bytes; stream forms starting exactly at the end accept Ok(0) or Err.", "2/C04"),
@@ -32,34 +32,34 @@ P = {
          "E3: SC interleavings of whole atomic operations, interception by type through hook H2. loom: its model of the C11 memory model; the bitmap source is copied from the tree with only the atomic import switched.", "2/C08"),
  "C09": ("model_checking", "E1-bfs", "explicit-state BFS to a fixpoint over all public bitmap operations on tiny bitmaps, BTreeSet page-set model; exhaustive ranges on word-boundary configurations",
          "Closure over all operation sequences on bitmaps of <= 6 pages (state = complete concrete bitmap state), plus every (start,len) from boundary alphabets on 63..129-page and non-power-of-two configurations; model comparison of every observable after every step; all histories of 3..4 operations over a reduced alphabet without merging states; geometries within a page of usize::MAX; clone_from into larger bitmaps.",
-         "enlarge() bounded in total growth; page sizes {1,2,3} for the closure.", "2/C09"),
+         "enlarge() bounded in total growth; page sizes {1,2,3} for the closure; on the huge geometries page numbers beyond the count (also those whose address overflows) are marked and cleared and must change nothing.", "2/C09"),
  "C10": ("model_checking", "E1-bfs", "explicit-state BFS to a fixpoint over insert/remove/build on real mmap regions, interval-list model, ancestors kept alive and re-checked",
          "From every reachable map: every insert interval of the universe, every region handle already held by the map or an ancestor, every (base,size) removal, every ordered build list of <= 3 intervals and lists with a repeated handle, the same lists through from_ranges / from_ranges_with_files with shared-file windows; all constructors, file-backed too, agree at the top of the address space; documented error classes; parent and all ancestor maps re-read after every transition.",
-         "Universe of 6 (quick) or 11 (thorough) cells at three bases.", "2/C10"),
+         "Universe of 6 (quick) or 11 (thorough) cells at three bases; the map without regions (from new() and from removals) is a state of the search.", "2/C10"),
  "C11": ("model_checking", "E3-sched + E1-bfs", "controlled-scheduler enumeration of updater/reader interleavings at ArcSwap/Mutex-operation granularity, plus BFS over sequential handle histories",
          "All interleavings within a preemption bound (stated) of updaters (lock, derive, replace) and readers (snapshot, read, clone, convert, drop); snapshot == exactly one published map (maps identified by start and region instance; updates insert, remove - down to the empty map - or swap a region for a fresh one of the same range; an updater may panic while holding the update lock, updates also run from destructors during unwinding, updates may be given up; concurrent updates from destructors), no lost replacement, monotonic visibility, memory still mapped; sequential histories to depth 6.",
-         "arc_swap internals execute for real but ArcSwap::load/store are treated as atomic steps; SC.", "2/C11"),
+         "arc_swap internals execute for real but ArcSwap::load/store are treated as atomic steps; SC. Sequential BFS: histories of up to 3 (thorough 4) operations are expanded without merging.", "2/C11"),
  "C12": ("model_checking", "E1-bfs + interposed mmap log + compile-fail grid", "explicit-state BFS over create/share/drop histories with link-time interposed mmap/munmap log; compile-fail grid for lifetimes",
          "All histories to depth 6 (quick) or 8 (thorough) over 3 region kinds and all drop orders; mapped iff an owner is alive, munmap exactly once with the mapped (addr,len), external mappings never unmapped; the mapping log replayed as an address-space model (no page mapped for a region may outlive its owners); size sweep 1 byte .. 1 GiB (thorough 4 GiB, incl. exact multiples of 1 GiB) x drop orders of five owners; creations that fail half-way under one mmap / lseek fault leave nothing mapped; builder sweep over protections x flag words x sizes x backing (mlock/madvise/mprotect interposed and failed one at a time); std and Xen builds. A generated grid of escaping-accessor programs must be rejected by rustc while each non-escaping twin compiles.",
-         "'All client programs' rests on the enumerated grid + Rust's borrow checker.", "2/C12"),
+         "'All client programs' rests on the enumerated grid + Rust's borrow checker. Replace histories: shrinking and growing replacements, all drop orders of the owners.", "2/C12"),
  "C13": ("exploration", "exhaustive-inputs", "exhaustive enumeration of (stream length, position, buffer length) x call sequences per adapter against the std::io twin",
          "Every adapter the crate provides x every stream length 0..20, cursor position incl. past-the-end and u64::MAX, buffer length 0..20 x sequences of up to 3 (thorough 4) calls, single transfers up to 2^21 (thorough 2^24) bytes, plain and exact forms; descriptor adapters also under short and EINTR-interrupted system calls, wrong access modes and datagram sockets; same count, bytes, remaining stream state and error kind as std.",
-         "TcpStream/Stdout exercised only where the sandbox allows; stream state after a failed exact call not compared.", "2/C13"),
+         "TcpStream/Stdout exercised only where the sandbox allows; stream state after a failed read_exact not compared (std leaves it open); after a failed write_all it is compared.", "2/C13"),
  "C14": ("fault_enumeration", "E2-choice-tree", "choice-tree DFS over all fault scripts (short/zero/EINTR*/error) of the underlying stream, scripted adapters and interposed read/write syscalls",
          "Every script of per-call behaviours up to the length bound for three targets (slice, region, guest memory spanning two regions and a hole), all four transfer forms plus the trait-level exact forms; transfer model: EINTR retried (also 33, 64 and 1000 times in a row), transfers of up to 3 MiB with short calls around 2^20 and failing calls, host byte buffers as readers, errors surface, no byte lost or duplicated.",
-         "Scripts up to 5 calls, EINTR runs up to 3; counts {0,1,5,8,9,13}.", "2/C14"),
+         "Scripts up to 5 calls, EINTR runs up to 3; counts {0,1,5,8,9,13}; host byte buffers as readers and as writers (room for fewer / as many / more bytes, second transfer into the same buffer).", "2/C14"),
  "C15": ("fault_enumeration", "exhaustive-inputs + fault injection", "exhaustive enumeration of construction requests (sizes x file lengths x offsets x flag words incl. all Xen flag bytes) with injected mmap/ioctl failures, interposed mapping log",
          "Acceptance predicate from the statement; attribute echo on success; nothing left mapped on failure (interposed log); sequences of file lengths through one FileOffset lineage; every length query answered with EIO / 0 / 2^40; shared file coherence byte by byte; file offsets around 2^31, 2^32, 2^33 in a sparse file; the descriptor's cursor left anywhere; explicit flag and protection words echoed for every Xen mapping type; anonymous builder x hugetlbfs hint x sizes around 2 MiB multiples, refusals compared with the kernel's own answer; Xen: all 256 low flag bytes and every high bit, emulated devices, injected failures.",
-         "Emulated gntdev/privcmd; safe requests the OS refuses may fail.", "2/C15"),
+         "Emulated gntdev/privcmd; safe requests the OS refuses may fail. External pointers x hugetlbfs hint x every page of an arena.", "2/C15"),
  "C16": ("model_checking", "E1-bfs", "same exploration as C05 with the precision oracle (dirty set after == before U pages of written bytes)",
          "Same cases as C05; read-type operations, derivations, queries, rejected requests mark nothing; successful writes mark exactly the overlapping pages; reset / reset-range / fetch-and-clear clear exactly the named pages and report exactly what was dirty (also on bitmaps of two and three words); the failed-descriptor-read exception is encoded; descriptor reads through guest memory, the owning region and its slice.",
-         "As C05.", "2/C05-C16"),
+         "As C05; the expected page set is computed from the tracked byte size, never from the page count the bitmap reports.", "2/C05-C16"),
  "C17": ("model_checking", "exhaustive-inputs + histories on emulated grant device", "exhaustive enumeration of accessor kinds x types x counts (guards) and BFS over access histories on an emulated on-demand grant device (interposed ioctl/mmap)",
          "Guard len/ptr for every accessor kind, T of 1..16 bytes, counts 0..9; on the emulated device every access operation at page-crossing offsets must run inside windows covering all touched bytes and leave no window behind, also when any one mmap call or map-grant request of the operation fails (deviation bound 1); transfers to and from real descriptors issue read(2)/write(2) only on buffers inside a window that is live at that moment; the operations also run through slices derived by every derivation the API offers; copies from ordinary memory into the region.",
-         "gntdev emulated at the ioctl contract level.", "2/C17"),
+         "gntdev emulated at the ioctl contract level; one on-demand region of 2^16+3 pages (sparse) for guards spanning more than 2^16 pages.", "2/C17"),
  "C18": ("exploration", "exhaustive-inputs", "exhaustive enumeration of zero-length forms x layers x address classes x ZST types (std and Xen builds)",
          "All zero-length forms at slice, region and guest-memory level (maps of no, one, two and three regions) at mapped/last/one-past/hole/0/u64::MAX addresses, empty containers, zero-sized element types; must be Ok, no panic, memory and bitmap unchanged, no device window requested; zero-count transfers with streams that report Interrupted first or refuse every call (exact forms).",
-         "Panics are caught per form; aborts and faults are attributed by the signal handler.", "2/C18"),
+         "Panics are caught per form; aborts and faults are attributed by the signal handler; zero-sized elements also through VolatileRef / VolatileArrayRef load, store and ref_at at every offset.", "2/C18"),
  "C19": ("exploration", "exhaustive-inputs", "exhaustive enumeration of all operand pairs at width 8 (macro re-instantiated from the tree) and boundary grids at width 64 against u128 arithmetic",
          "impl_address_ops! from the current tree instantiated at width 8 (all 2^16 pairs per operation) and 16 (thorough, all 2^32); GuestAddress/MemoryRegionAddress at width 64 on the +-4 grid around 0, 2^8.. 2^64 squared and all 64 alignments.",
          "Width 64 is covered by a boundary grid, not exhaustively; genericity of the macro over the width.", "2/C19"),
